@@ -461,9 +461,15 @@ def setitem(it, a, key, v):
                 a.write(lambda idx: cs(idx), lambda idx: v, it.ctx, "store at where() coordinates")
                 return
         raise Unsupported("fancy-index store")
-    target = getitem(it, a, key)
+    k_exp = expand_key(a, list(key)) if not any(k is None for k in key) else None
+    all_int = k_exp is not None and all(not isinstance(k, slice) for k in k_exp)
+    target = None if all_int else getitem(it, a, key)
+    if all_int:
+        for k, dim in zip(k_exp, a.shape):
+            kk = r_add(dim, int(k)) if (is_conc(k) and int(k) < 0) else k
+            it.ctx.definedness(b_and(cmp(">=", kk, 0), cmp("<", kk, dim)), "index in bounds")
     if not isinstance(target, Arr):
-        # all-integer key: single element
+        # all-integer key: single element (no read of the array)
         k2 = expand_key(a, key)
         idx = []
         for k, dim in zip(k2, a.shape):
@@ -2000,3 +2006,34 @@ def _digitize(it, x, bins, right=False):
 def _finfo(it, dt=None):
     o = Obj(None, {"eps": Fraction(1, 2 ** 52), "tiny": Fraction(1, 2 ** 1022), "max": Fraction(2 ** 1023) * (2 - Fraction(1, 2 ** 52)), "resolution": Fraction(1, 10 ** 15)})
     return o
+
+
+@ext("numpy.reshape")
+def _np_reshape(it, a, newshape, **kw):
+    return reshape(it, as_arr(it, a), list(newshape) if isinstance(newshape, (tuple, list)) else [newshape])
+
+
+@ext("numpy.transpose")
+def _np_transpose(it, a, axes=None):
+    if axes is not None:
+        raise Unsupported("transpose with axes")
+    return transpose(it, as_arr(it, a))
+
+
+@ext("numpy.shape")
+def _np_shape(it, a):
+    return tuple(as_arr(it, a).shape)
+
+
+@ext("numpy.clip")
+def _np_clip(it, a, lo, hi, **kw):
+    if kw.get("out") is not None:
+        raise Unsupported("numpy.clip(out=)")
+    return arr_method(it, as_arr(it, a), "clip", [lo, hi], {})
+
+
+@ext("numpy.squeeze")
+def _np_squeeze(it, a, **kw):
+    A = as_arr(it, a)
+    keep = [k for k, d in enumerate(A.shape) if not (is_conc(d) and _num(d) == 1)]
+    return reshape(it, A, [A.shape[k] for k in keep])
